@@ -120,9 +120,10 @@ class LFDA(MahalanobisMixin, TransformerMixin):
 
       # classwise affinity matrix
       dist = pairwise_distances(Xc, metric='l2', squared=True)
-      # distances to k-th nearest neighbor
-      k = min(k, nc - 1)
-      sigma = np.sqrt(np.partition(dist, k, axis=0)[:, k])
+      # distances to k-th nearest neighbor (within this class: a small class
+      # must not reduce k for the classes that follow)
+      kc = min(k, nc - 1)
+      sigma = np.sqrt(np.partition(dist, kc, axis=0)[kc, :])
 
       local_scale = np.outer(sigma, sigma)
       with np.errstate(divide='ignore', invalid='ignore'):
@@ -133,7 +134,7 @@ class LFDA(MahalanobisMixin, TransformerMixin):
       tSb += G / n + (1 - nc / n) * Xc.T.dot(Xc) + _sum_outer(Xc) / n
       tSw += G / nc
 
-    tSb -= _sum_outer(X) / n - tSw
+    tSb -= _sum_outer(X) / n + tSw
 
     # symmetrize
     tSb = (tSb + tSb.T) / 2
